@@ -10,5 +10,6 @@ open Gossamer.C07
 #print axioms C07_tnode_roundtrip_spec
 #print axioms C07_tnode_roundtrip_counterexample
 #print axioms C07_tdecode_no_panic
+#print axioms C07_scale_int_mode_irrelevant
 #print axioms Gossamer.TrieCodec.scaleBytes_enc
 #print axioms Gossamer.TrieCodec.bitmap_roundtrip
